@@ -344,6 +344,9 @@ func genC02(c *Ctx) {
 		}
 		if len(ch.Q) <= 6 {
 			guard("DecomposeNTT", func() { c02DecompNTT(c, po, ch) })
+			if c.Thorough() || ci%2 == 0 {
+				guard("Evaluator.ModDown", func() { c02EvalModDown(c, po, ch) })
+			}
 			// conjugate-invariant twins (primes are = 1 mod 64 = 4N for N <= 16)
 			guard("ConjugateInvariant", func() { c02CI(c, po, ch, []int{8, 16}[ci%2]) })
 		}
